@@ -68,6 +68,8 @@ Reduced ==
     \cup {Cell("cast", "", x[1], x[2], t, 0) : x \in {<<I32, 0>>, <<PTR, 1>>}, t \in {I32, PTR8}}
     \cup {Cell("arg", "", s, ks, d, 0) : s \in {I32, U8, Bool, PTR, ARR}, ks \in 0..1, d \in {I32, U8, PTR, SLICE, STRUCT}}
     \cup {Cell("arg2", "", s, ks, d, 0) : s \in {I32, U8, Bool}, ks \in 0..1, d \in {I32, U8, PTR}}
+    \* a slice pointer handed on with 1 (legal), 2 or 3 (surplus) address markers
+    \cup {Cell(k, "", SPTR, ks, d, 0) : k \in {"arg", "arg2"}, ks \in 1..3, d \in {SPTR, SLICE, Ptr(ARR)}}
     \cup {Cell("argn", "", <<>>, n, <<>>, m) : n \in 0..3, m \in 0..2}
     \cup {Cell("assign", "", s, ks, d, kd) : s \in {I32, U8, Bool, PTR}, ks \in 0..1, d \in {I32, U8, PTR}, kd \in 0..1}
     \cup {Cell("init", "", s, ks, d, 0) : s \in {I32, U8, Bool, PTR}, ks \in 0..1, d \in {I32, U8, PTR}}
@@ -112,6 +114,8 @@ Cells ==
     \cup {Cell("elem", "", s, 0, d, 0) : s \in PrimT, d \in PrimT}
     \cup {Cell("arg", "", s, ks, d, 0) : s \in SrcShapes, ks \in 0..2, d \in ParamShapes}
     \cup {Cell("arg2", "", s, ks, d, 0) : s \in VarShapes, ks \in 0..1, d \in ParamShapes}
+    \cup {Cell(k, "", s, 3, d, 0) : k \in {"arg", "arg2"}, s \in {SPTR, PTR, PPTR}, d \in ParamShapes}
+    \cup {Cell("arg2", "", SPTR, ks, d, 0) : ks \in 1..2, d \in ParamShapes}
     \cup {Cell("argn", "", <<>>, n, <<>>, m) : n \in 0..3, m \in 0..2}
     \cup {Cell("ret", "", x[1], x[2], d, 0) : x \in {y \in SrcShapes \X (0..2) : SrcOK("ret", y[1], y[2])}, d \in RetShapes}
     \cup ContextCells
